@@ -33,6 +33,7 @@ func genFraming(p *simkit.Plan, r *simkit.Rand, tier string) {
 		n = r.Range(1, 60)
 		big = 2000000
 	}
+	total := 0
 	for i := 0; i < n; i++ {
 		size := r.SmallBiased(300)
 		if r.Chance(1, 15) {
@@ -43,9 +44,12 @@ func genFraming(p *simkit.Plan, r *simkit.Rand, tier string) {
 			// buffer (1 MiB), followed by further messages.
 			size = (1 << 20) + r.Range(-3, 5000)
 		}
-		if c["frag"] > 0 && size > int(c["frag"])*3000 {
-			size = int(c["frag"]) * 3000
+		// The link delivers at most "frag" bytes a step: keep the whole plan
+		// (not just each message) well inside the step budget.
+		if c["frag"] > 0 && total+size > int(c["frag"])*3000 {
+			size = max(0, int(c["frag"])*3000-total)
 		}
+		total += size
 		p.Ops = append(p.Ops, simkit.Op{Actor: "writer", Kind: "msg", N: []int64{int64(size)}})
 		if r.Chance(1, 2) {
 			p.Ops = append(p.Ops, simkit.Op{Actor: "writer", Kind: "flush"})
@@ -165,11 +169,18 @@ func execFraming(t *testing.T, plan *simkit.Plan) *simkit.Result {
 				s.Violate("C22", "flushed-not-decodable", "Flush", "%d messages were written before the last Flush and the link is idle, but only %d could be decoded", flushedCount, len(decoded))
 			}
 		}
-		s.Loop(func() bool {
+		stop := s.Loop(func() bool {
 			mu.Lock()
 			defer mu.Unlock()
 			return writerDone && (len(decoded) >= len(written) || decodeErr != nil) && link.Idle()
 		})
+		// A run whose step budget ran out while the link was still delivering
+		// bytes has not finished: nothing can be said about the messages still
+		// on their way (a stream that has gone idle without them is a verdict).
+		unfinished := stop == simkit.StopBudget && !link.Idle()
+		if unfinished {
+			s.Count("probe.step_budget_ran_out_in_flight", 1)
+		}
 		mu.Lock()
 		if decodeErr != nil {
 			s.Violate("C22", "decode-error", "Decode", "Decode failed after %d of %d messages: %v", len(decoded), len(written), decodeErr)
@@ -180,7 +191,7 @@ func execFraming(t *testing.T, plan *simkit.Plan) *simkit.Result {
 				break
 			}
 		}
-		if writerDone && decodeErr == nil && len(decoded) != len(written) {
+		if writerDone && decodeErr == nil && len(decoded) != len(written) && !unfinished {
 			s.Violate("C22", "message-count", "Decode", "%d messages written and flushed, %d decoded", len(written), len(decoded))
 		}
 		nontrivial = len(written) >= 2
